@@ -89,7 +89,7 @@ def admit(item):
                         return "leaf %s pos %d element/charge" % (leaf["name"], pos)
                     if bool(data.get("aromatic", False)) != bool(atom["arom"]):
                         return "leaf %s pos %d aromatic" % (leaf["name"], pos)
-                    if float(data.get("weight", 1)) != float(atom.get("w") or 1):
+                    if float(data.get("weight", 1)) != float(atom["w"] if atom.get("w") is not None else 1):
                         return "leaf %s pos %d weight %r" % (leaf["name"], pos, data.get("weight"))
                 got_d = list(data.get("bonding", []) or [])
                 want_d = leaf["descs"].get(str(pos), [])
